@@ -1,5 +1,153 @@
 package sim
 
-import "github.com/anishathalye/porcupine"
+// Linearizability of the recorded history of the shared log (C13), checked with
+// porcupine against a sequential model whose state is a set of entry ids. Join is
+// nondeterministic: it adds one of the states its source had during the call.
 
-var _ = porcupine.Ok
+import (
+	"sort"
+	"strings"
+	"time"
+
+	"github.com/anishathalye/porcupine"
+)
+
+type linInput struct {
+	o     *opRec
+	cands []map[string]bool // join only
+}
+
+func splitSet(s string) map[string]bool {
+	out := map[string]bool{}
+	if s == "" {
+		return out
+	}
+	for _, h := range strings.Split(s, ",") {
+		out[h] = true
+	}
+	return out
+}
+
+func (w *e1World) porcupineCheck(all []*opRec, seqsI interface{}, cfg *e1Config) {
+	r := w.r
+	seqs := seqsI.([][]st)
+	window := func(i, from, to int) []map[string]bool {
+		var out []map[string]bool
+		sq := seqs[i]
+		for k := range sq {
+			ends := 1 << 60
+			if k+1 < len(sq) {
+				ends = sq[k+1].stamp
+			}
+			if sq[k].stamp <= to && ends > from {
+				out = append(out, sq[k].set)
+			}
+		}
+		return out
+	}
+	nm := porcupine.NondeterministicModel{
+		Init: func() []interface{} { return []interface{}{setKey(w.init[0])} },
+		Step: func(state, input, output interface{}) []interface{} {
+			cur := splitSet(state.(string))
+			in := input.(*linInput)
+			o := in.o
+			same := []interface{}{state}
+			switch o.d.kind {
+			case kAppend:
+				if o.err != nil {
+					return same
+				}
+				if joinS(sortedCopy(o.next)) != joinS(w.headsOf(cur)) {
+					return nil
+				}
+				for h := range cur {
+					if w.reg[h].Time >= o.time {
+						return nil
+					}
+				}
+				cur[o.hash] = true
+				return []interface{}{setKey(cur)}
+			case kJoin:
+				if o.err != nil {
+					return same
+				}
+				var out []interface{}
+				seen := map[string]bool{}
+				for _, c := range in.cands {
+					u := copySet(cur)
+					union(u, c)
+					k := setKey(u)
+					if !seen[k] {
+						seen[k] = true
+						out = append(out, k)
+					}
+				}
+				return out
+			case kValues, kIterator, kSnapshot:
+				ss := map[string]bool{}
+				for _, h := range o.seq {
+					ss[h] = true
+				}
+				if len(ss) == len(o.seq) && setEq(ss, cur) {
+					return same
+				}
+				return nil
+			case kHeads, kRawHeads, kJSONLog:
+				if joinS(sortedCopy(o.set)) == joinS(w.headsOf(cur)) {
+					return same
+				}
+				return nil
+			case kEntries:
+				ss := map[string]bool{}
+				for _, h := range o.set {
+					ss[h] = true
+				}
+				if setEq(ss, cur) {
+					return same
+				}
+				return nil
+			case kLen:
+				if o.n == len(cur) {
+					return same
+				}
+				return nil
+			case kGet, kHas:
+				if cur[o.d.hash.String()] == o.flag {
+					return same
+				}
+				return nil
+			}
+			return same
+		},
+		Equal: func(a, b interface{}) bool { return a.(string) == b.(string) },
+	}
+	var ops []porcupine.Operation
+	for _, o := range all {
+		if o.d.target != 0 {
+			continue
+		}
+		in := &linInput{o: o}
+		if o.d.kind == kJoin {
+			in.cands = window(o.d.src, o.inv, o.ret)
+		}
+		ops = append(ops, porcupine.Operation{ClientId: o.task, Input: in, Call: int64(o.inv), Output: in, Return: int64(o.ret)})
+	}
+	sort.Slice(ops, func(i, j int) bool { return ops[i].Call < ops[j].Call })
+	if len(ops) == 0 {
+		return
+	}
+	res := porcupine.CheckOperationsTimeout(nm.ToModel(), ops, 5*time.Second)
+	switch res {
+	case porcupine.Illegal:
+		var hs []string
+		for _, op := range ops {
+			o := op.Input.(*linInput).o
+			hs = append(hs, kindNames[o.d.kind])
+		}
+		r.Violate("C13:linearizable", "the history of %d operations on the shared log (%s) has no linearisation against the sequential set model", len(ops), strings.Join(hs, " "))
+	case porcupine.Unknown:
+		r.Count("porcupine-inconclusive")
+	default:
+		r.Count("porcupine-ok")
+	}
+}
